@@ -125,6 +125,17 @@ class TermEval:
                 # a statement with an effect outside the value computation (e.g. filling a cache): the value terms are still read off the returns
                 self.side_effects = getattr(self, "side_effects", []) + [" ".join(u(s).split())[:70]]
                 continue
+            if isinstance(s, ast.Pass):
+                continue
+            # `try: x = <cast>(x) except E: pass`: the converted value where the conversion does not raise E, else the value itself
+            if isinstance(s, ast.Try) and not s.finalbody and not s.orelse and len(s.body) == 1 and isinstance(s.body[0], ast.Assign) and len(s.body[0].targets) == 1 \
+                    and isinstance(s.body[0].targets[0], ast.Name) and s.handlers and all(len(h.body) == 1 and isinstance(h.body[0], ast.Pass) for h in s.handlers) \
+                    and any(isinstance(n, ast.Name) and n.id == s.body[0].targets[0].id for n in ast.walk(s.body[0].value)):
+                name = s.body[0].targets[0].id
+                old = env.get(name, ("name", name))
+                new = self.term(s.body[0].value, {**env, name: old})
+                env[name] = ("try", new, old, tuple(sorted(u(h.type) if h.type is not None else "BaseException" for h in s.handlers)))
+                continue
             if isinstance(s, ast.Try) and not s.finalbody:
                 # the value terms of the protected block (and of its else clause) are read off as if it were inline; a handler contributes
                 # its own paths (it runs instead of the rest of the protected block)
